@@ -15,9 +15,10 @@ package run
 // loader must report every such case as an error value. No precondition on the file.
 //@ func ParseConfigFile(filepath string) (Config, base.LogSchema, ConfigStats, error)
 //@   modifies everything
-//@   ensures[accepted-config-has-its-sections] result.3 == nil ==> result.0.Orchestration.Value != nil && len(result.0.MetricKeys) > 0
-//@        && (forall i int :: 0 <= i && i < len(result.0.MetricKeys) ==> base.hasf(result.1, key(result.0.MetricKeys[i])))
-//@        && bsupport.tcsok(result.0.Transformations, result.1) && len(result.0.OutputBuffersPairs) >= 1
+//@   canary ensures result.3 != nil
+//@   ensures[absent-sections-rejected] result.3 == nil ==> result.0.Orchestration.Value != nil && len(result.0.OutputBuffersPairs) >= 1
+//@   ensures[metric-keys-validated] result.3 == nil ==> len(result.0.MetricKeys) > 0 && (forall i int :: 0 <= i && i < len(result.0.MetricKeys) ==> base.hasf(result.1, key(result.0.MetricKeys[i])))
+//@   ensures[transformations-verified] result.3 == nil ==> bsupport.tcsok(result.0.Transformations, result.1)
 
 // trusted (yaml.v3 + bconfig.ConfigHolder.UnmarshalYAML): decoding respects the Go types; a holder that appears as a LIST
 // ITEM has been through UnmarshalYAML, which sets Value or fails (null items are skipped by the decoder); a holder that is
